@@ -204,6 +204,9 @@ class Concrete:
         # LF line ends and reports that size (C03), which SEARCH must agree with
         self.first_uid = 101 if backend == 'dict' else 1
         self.eol = 2 if backend == 'dict' else 1
+        # (maildir: RFC822.SIZE of a message with folded header lines is not the
+        # stored size either, so no exact size can be arranged: no folding there)
+        self.fold = backend == 'dict'
         self.tok = dict(zip(('t1', 't2'), rng.choice(TOKEN_POOL)))
         self.base = rng.choice(BASES)
         self.messages: dict[int, bytes] = {}      # uid -> literal
@@ -287,12 +290,12 @@ class Concrete:
                 if pad:
                     items.append('filler@example.test')
                 rng.shuffle(items)
-                sep = rng.choice([', ', ',\r\n ', ',\r\n\t'])
+                sep = rng.choice([', ', ',\r\n ', ',\r\n\t'] if self.fold else [', '])
                 out.append(f'{name}: ' + sep.join(items))
             elif f == 'Subject':
                 items = [self.case(self.tok[t]) for t in toks] + (['pad'] if pad else [])
                 rng.shuffle(items)
-                sep = rng.choice([' ', ' ', '\r\n '])
+                sep = rng.choice([' ', ' ', '\r\n '] if self.fold else [' '])
                 out.append(f'{name}: ' + sep.join(items))
             else:
                 items = [self.case(self.tok[t]) for t in toks] + (['pad'] if pad else [])
@@ -676,16 +679,17 @@ def jsonable(v):
     return v
 
 
-def execute_mailbox(run: Run, stats: dict, mbid, mbox, triples, rng, corrupt=None):
+def execute_mailbox(run: Run, stats: dict, mbid, mbox, triples, rng, corrupt=None,
+                    backend: str = 'dict'):
     """Build the view (as often as needed) and ask every program."""
-    conc = Concrete(mbox, rng)
+    conc = Concrete(mbox, rng, backend)
     script = conc.build_script()
     hidden = any(m['hidden'] for m in mbox)
     chunks = ([triples[i:i + HIDDEN_CHUNK] for i in range(0, len(triples), HIDDEN_CHUNK)]
               if hidden else [triples])
     mdig = None
     for chunk in chunks:
-        srv = Server()
+        srv = Server(backend)
         try:
             run_build(srv, conc, script)
             nbuild = len(srv.log)
@@ -734,6 +738,7 @@ def execute_mailbox(run: Run, stats: dict, mbid, mbox, triples, rng, corrupt=Non
                     continue
                 replay = {
                     'check': 'C13',
+                    'backend': backend,
                     'mailbox': jsonable(mbox),
                     'key': tr['ktext'],
                     'build': [[s, c.decode('latin-1')] for s, c in script],
@@ -766,7 +771,8 @@ def execute_mailbox(run: Run, stats: dict, mbid, mbox, triples, rng, corrupt=Non
             srv.close()
 
 
-def late_arrival(run: Run, stats: dict, mbid, mbox, triples, rng) -> None:
+def late_arrival(run: Run, stats: dict, mbid, mbox, triples, rng,
+                 backend: str = 'dict') -> None:
     """The session's view is what it has been told: a message delivered after
     its last command has no sequence number yet.  One world per mailbox: after
     the build another session APPENDs a copy of a message the program selects;
@@ -778,12 +784,12 @@ def late_arrival(run: Run, stats: dict, mbid, mbox, triples, rng) -> None:
     if not cands:
         return
     tr = rng.choice(cands)
-    conc = Concrete(mbox, rng)
+    conc = Concrete(mbox, rng, backend)
     script = conc.build_script()
     ideal = max(tr['exp']['seq']['alts'], key=len)
     uid = mbox[rng.choice(sorted(ideal)) - 1]['uid']
     script.append(('q', conc.appends[uid]))
-    srv = Server()
+    srv = Server(backend)
     try:
         run_build(srv, conc, script)
         prog = conc.program(tr['key'])
@@ -804,7 +810,7 @@ def late_arrival(run: Run, stats: dict, mbid, mbox, triples, rng) -> None:
             f'SEARCH {prog.decode("latin-1")!r} right after another session delivered a '
             f'message: returned {got}, allowed {jsonable(tr["exp"]["seq"]["alts"])} '
             f'(the view has {len(mbox)} messages)',
-            {'check': 'C13', 'mailbox': jsonable(mbox), 'key': tr['ktext'],
+            {'check': 'C13', 'backend': backend, 'mailbox': jsonable(mbox), 'key': tr['ktext'],
              'build': [[s, c.decode('latin-1')] for s, c in script],
              'command': 'SEARCH ' + prog.decode('latin-1'), 'uid': False,
              'expected': jsonable(tr['exp']['seq']), 'bad': sorted(tr['bad']),
@@ -824,7 +830,7 @@ def corrupt_exp(exp):
 
 
 def model_and_replay(run: Run, cfg: str, tlc_seed: int, stats: dict, rng, label: str,
-                     workers: int, corrupt=None) -> bool:
+                     workers: int, corrupt=None, backend: str = 'dict') -> bool:
     """Run TLC on cfg with a state dump, read the triples, execute all of them."""
     d = tempfile.mkdtemp(prefix='verif.c13.')
     try:
@@ -857,16 +863,28 @@ def model_and_replay(run: Run, cfg: str, tlc_seed: int, stats: dict, rng, label:
         by_mb.setdefault(tr['mbid'], []).append(tr)
     t1 = time.time()
     asked0 = stats['asked']
+    skipped = []
     for mbid in sorted(by_mb):
         trs = sorted(by_mb[mbid], key=lambda t: t['ktext'])
         try:
-            execute_mailbox(run, stats, (label, mbid), mailboxes[mbid], trs, rng, corrupt)
-            late_arrival(run, stats, (label, mbid), mailboxes[mbid], trs, rng)
+            execute_mailbox(run, stats, (label, mbid), mailboxes[mbid], trs, rng, corrupt,
+                            backend)
+            late_arrival(run, stats, (label, mbid), mailboxes[mbid], trs, rng, backend)
         except PreconditionFailed as exc:
-            run.machinery(f'{cfg}: mailbox {mbid}: the view could not be built: {exc}')
-            return False
+            if backend == 'dict':
+                run.machinery(f'{cfg}: mailbox {mbid}: the view could not be built: {exc}')
+                return False
+            # maildir: a view this store cannot be brought to (other properties'
+            # findings, e.g. sizes or \\Recent) is left out, and counted
+            skipped.append({'mbid': mbid, 'why': str(exc)[:300]})
+    if skipped and len(skipped) * 2 > len(by_mb):
+        run.machinery(f'{cfg}: {len(skipped)} of {len(by_mb)} views could not be built on '
+                      f'{backend}: {skipped[0]["why"]}')
+        return False
     run.notes.setdefault('replayed', []).append({
-        'cfg': os.path.basename(cfg), 'tlc_seed': tlc_seed, 'mailboxes': len(mailboxes),
+        'cfg': os.path.basename(cfg), 'backend': backend, 'tlc_seed': tlc_seed,
+        'mailboxes': len(mailboxes), 'views_not_buildable': skipped[:3],
+        'views_not_buildable_count': len(skipped),
         'views_with_hidden': sum(1 for m in mailboxes.values() if any(x['hidden'] for x in m)),
         'view_sizes': {str(n): sum(1 for m in mailboxes.values() if len(m) == n)
                        for n in range(4)},
@@ -893,7 +911,9 @@ def main(tier: str) -> int:
         'or selects a proper non-empty part of the view; distinct = distinct '
         '(mailbox, program, SEARCH|UID SEARCH)')
     run.assumptions += [
-        'dict backend only (no maildir World in the harness yet)',
+        'quick tier: dict backend only; thorough: also a sample on the maildir backend, '
+        'whose views have UIDs from 1, no keywords and no \\Recent (what that store can be '
+        'brought to), with sizes as that store reports them',
         'RFC 3501 "disregarding time and timezone" is read as either the date as '
         'written or the UTC date (both accepted); RFC 2180 4.3: an expunged but '
         'unannounced message may be searched or left out',
@@ -939,6 +959,9 @@ def main(tier: str) -> int:
         # ... and every triple of the exhaustively enumerated small universe
         ok = model_and_replay(run, 'Search_small.cfg', 1, stats, rng, 'small', 16,
                               corrupt) and ok
+        # ... and a sample on the maildir backend
+        model_and_replay(run, 'Search_maildir.cfg', 2000 + run.seed, stats, rng, 'maildir',
+                         16, corrupt, backend='maildir')
         if ok:
             n = run.notes['replayed'][-1]['triples']
             run.notes['exhaustive_scope'] = (SMALL_SCOPE % n) + (
@@ -954,7 +977,7 @@ def main(tier: str) -> int:
 def replay(path: str) -> int:
     data = json.load(open(path))
     rep = data.get('replay', data)
-    srv = Server()
+    srv = Server(rep.get('backend', 'dict'))
     try:
         for sess, line in rep['build']:
             out = srv.cmd(sess, line.encode('latin-1'))
